@@ -17,6 +17,7 @@ UNIT_MAP = {
     'object_laws': ['object_laws'],
     'frames': ['closure_capture'],
     'gc_roots': ['gc_roots'],
+    'host_values': ['gc_roots'],
     'names': ['name_resolution'],
     'error_trace': ['error_trace'],
     'emission': ['decode_walk'],
